@@ -171,6 +171,12 @@ impl Typed for C15 {
             // attempted addresses must have been resolved, each at most once, not before resolving
             let mut seen = std::collections::BTreeSet::new();
             for a in &log {
+                match conn_of(&a.addr) {
+                    Conn::Err(_) => ctx.count("fault.tcp_connect_refused"),
+                    Conn::Hang => ctx.count("fault.tcp_connect_never_completes"),
+                    Conn::Ok(ms) if ms > DIAL_TIMEOUT => ctx.count("fault.tcp_connect_slower_than_timeout"),
+                    _ => {}
+                }
                 let Some(r) = resolved.iter().find(|r| r.0 == a.addr) else {
                     ctx.violate("attempt-to-unresolved-address", format!("{}", a.addr));
                     return;
